@@ -3,7 +3,7 @@ import re
 
 from .. import rettags as RT
 from ..analysis import Branches, Origins, edge_dominates, fmt_terms, reach_avoiding, region_always_errs
-from ..serde_tables import SER, VAR, casts_in, int_entry_ok
+from ..serde_tables import SER, VAR, casts_in, f64_mapping_ok, int_entry_ok
 from ..tmatch import ANY, Agg, Call, Each, Or_, m, ms
 
 fs = frozenset
@@ -112,7 +112,7 @@ def check_serializer(ctx, lib):
     cs = casts_in(b) if b else []
     row("serialize_f32", ok and len(cs) == 1 and cs[0][1] == "f32" and cs[0][2] == "f64", "widens to f64 and delegates to serialize_f64 on the same serializer")
     b, o, okt, tails = R("serialize_f64")
-    ok = bool(b) and len(okt) == 1 and not tails and ms(okt[0], Call("std::option::Option::<T>::map_or", Each(Call("serde_json::Number::from_f64", Each(P2))), Each(Agg(VAR + "::Null")), Each(("fnitem", VAR + "::Number"))))
+    ok = bool(b) and len(okt) == 1 and not tails and f64_mapping_ok(okt[0], P2)
     row("serialize_f64", ok and not casts_in(b), "Number(from_f64(value)) when finite, Null otherwise")
     b, o, okt, tails = R("serialize_str")
     row("serialize_str", bool(b) and len(okt) == 1 and not tails and ms(okt[0], Agg(VAR + "::String", Each(P2))), "String(exactly the argument)")
